@@ -46,10 +46,10 @@ theorem abort_keeps_original (fs0 : FS) (jobs : List Job) (wf : WF fs0 jobs) (n 
     · rw [he] at h; cases h; exact absurd rfl hc
   · exact f1 hm
 
-/-- **never_partial** (two-state atomicity).  At every kill point a target holds either exactly
+/-- **old_or_complete** (two-state atomicity).  At every kill point a target holds either exactly
     its original bytes or exactly the complete output of its run — never a prefix of the output,
     never a mixture, never nothing. -/
-theorem never_partial (fs0 : FS) (jobs : List Job) (wf : WF fs0 jobs) (n : Nat)
+theorem old_or_complete (fs0 : FS) (jobs : List Job) (wf : WF fs0 jobs) (n : Nat)
     (j : Job) (hj : j ∈ jobs) :
     (exec fs0 ((protocol jobs).take n)).content j.path = fs0.content j.path ∨
     (exec fs0 ((protocol jobs).take n)).content j.path = some j.output := by
